@@ -233,7 +233,7 @@ theorem remove_absent {c : Ctx} (h : WF c) {n : Name} (hn : n ∉ c.mgrs.map Obj
   simp only [remove, hl]
 
 def newObj (c : Ctx) (k : Kind) (n : Name) (relF : Bool) (runB : RunB) : Obj :=
-  { id := c.nextId, name := n, kind := k, relF, runB, isOpen := false, ts := .ready }
+  { id := c.nextId, name := n, kind := k, relF, runB, isOpen := false, ts := .ready, started := false }
 
 theorem make_ok {c : Ctx} (h : WF c) (ha : c.active = true) {n : Name} (hn : n ∉ c.mgrs.map Obj.name)
     (k : Kind) (rf : Bool) (rb : RunB) :
